@@ -32,3 +32,31 @@ PREDICATES = {}
 def predicate(fn):
     PREDICATES[fn.__name__] = fn
     return fn
+
+
+_SURR_AFTER_PCT = re.compile("%[\ud800-\udfff]|%[^\ud800-\udfff][\ud800-\udfff]")
+
+
+@predicate
+def f2_pct_surrogate(rec, args):
+    """C05 'call' case on a requoting quoter whose word has a lone surrogate within two code points after a '%'."""
+    if rec["case"] not in ("call", "boundary"):
+        return False
+    if rec["case"] == "call":
+        kind, name, word = args[0], args[1], args[2]
+        if kind != "q":
+            return False
+    else:
+        name, word = args[0], args[2]
+    from vlib import impl
+    if not impl.QUOTER_CONFIGS.get(name, {}).get("requote", True):
+        return False
+    if not _SURR_AFTER_PCT.search(word):
+        return False
+    # the difference must be explained exactly by the order of surrogate stripping
+    kw = impl.QUOTER_CONFIGS[name]
+    stripped = word.encode("utf8", "ignore").decode("utf8")
+    try:
+        return impl.qc._Quoter(**kw)(stripped) == impl.qp._Quoter(**kw)(word)
+    except Exception:
+        return False
